@@ -31,12 +31,12 @@ NOTES = ("Technique family: static analysis only. Every check parses the "
          "finding). Exit 2 + ANALYSIS-ERROR means the analysis could not be "
          "carried out (anchor vanished, shape outside the known idioms); it "
          "is never a verdict. The thorough tier adds checker "
-         "self-validation on the recorded corpora: 435 seeded "
-         "property-breaking changes (434 reported, one recorded gap), 16 "
-         "mechanical variants and 435 hand-made behaviour-preserving "
+         "self-validation on the recorded corpora: 522 seeded "
+         "property-breaking changes (521 reported, one recorded gap), 16 "
+         "mechanical variants and 522 hand-made behaviour-preserving "
          "refactorings (all silent). Held-out first-run "
-         "rates of the last two waves: 68 % of 87 unseen breaking changes "
-         "reported, 13 % of 87 unseen refactorings noisy (DESIGN.md 7.4).")
+         "rates of the last two waves: 69 % of 87 unseen breaking changes "
+         "reported, 3 % of 87 unseen refactorings noisy (DESIGN.md 7.4).")
 
 _TRUST = ("Python semantics of the constructs the rules read; the frozen "
           "reference tables named in the evidence file (eBPF ISA encoding, "
@@ -345,7 +345,8 @@ _ABSTRACT = {
     "C05": "exhaustive abstract execution of EBPF.exit over the exit-code "
            "enumerations and of the save_registers lists around helper "
            "calls; abstract execution of prog_load / EBPF.load on names of "
-           "0..40 characters",
+           "0..40 characters, of MemoryMap.__getitem__ on bare registers; "
+           "shares the sign-extension tables of C01",
     "C06": "path enumeration with mode-variable propagation over "
            "Memory._set; abstract execution of every fmt_addr; CFG rule on "
            "TheDict.lookup",
@@ -366,7 +367,8 @@ _ABSTRACT = {
            "rule",
     "C12": "shares the frame family of C11; who-may-complete rule over the "
            "class hierarchy; CFG rules own-request / blocking-reads / "
-           "overflow progress",
+           "overflow progress; abstract execution of roundtrip_packet for "
+           "the index space of datagram frames",
     "C13": "abstract execution of roundtrip on 31 argument lists run on one "
            "master in two orders (bounded, with histories)",
     "C14": "abstract execution of to_operational against a model of the ESC "
@@ -389,15 +391,22 @@ _ABSTRACT = {
     "C21": "shares the allocation family of C18 and the sterile / writer "
            "rules of C11; linear normal forms of frame offsets; aliasing "
            "rule for the sterile template; CFG rule for the slot lookup",
-    "C23": "effect rule over the file-system operations of ParallelEtherCat",
-    "C25": "abstract execution of assigned_address (18 cases); CFG "
-           "check-then-add rule",
+    "C23": "effect rule over the file-system operations of "
+           "ParallelEtherCat; abstract execution of FMMULock against a "
+           "model of the map file (record locks, second descriptors) and "
+           "of the netlink helper on 9 kernel answers (bounded, "
+           "model-based)",
+    "C25": "abstract execution of assigned_address (18 cases) and of "
+           "find_free_address against a bus model with a competing task "
+           "at every suspension point (12 scenarios, bounded, "
+           "model-based); CFG check-then-add rule",
     "C26": "shares the allocation family of C18, the descriptor scenarios "
            "of C19 and the activation rule of C21",
     "C27": "exhaustive abstract execution of Valve.update/reset over the "
            "128-row state space x 2 time classes; CFG must-pass rule on "
            "SyncGroup.update_devices",
-    "C29": "shares the layout family of C08",
+    "C29": "shares the layout family of C08; CFG must-pass rule on the "
+           "descriptors' __set__",
     "C30": "shares the allocation family of C18; CFG must-pass rule on "
            "SyncGroup.update_devices",
 }
